@@ -34,8 +34,10 @@ SCOPING (documentation readings; none of them narrows the property):
 * The apex node always exists (SOA is never removed; `delete(apex)` is not generated): bounds()
   asserts a left bound, and a zone without its apex is outside the documented domain.
 * Harness-side configuration: `small_t` uses a Zone subclass whose map_factory builds
-  BTreeDict(t=3), so that 20-name zones are multi-level trees (map_factory is the documented
-  extension point; everything else is the code under test).
+  BTreeDict(t=3) and whose writable_version_factory gives a from-nothing version a
+  Delegations(t=3), so that 20-name zones and >5-cut delegation indexes are multi-level trees
+  (map_factory / writable_version_factory are the documented extension points; everything else
+  is the code under test).
 
 KNOWN DEFECT CLASSES, excluded by construction behind flags (flip to False once /repo is fixed):
 
@@ -201,8 +203,17 @@ def _zone_cls(small_t):
         return dns.btreezone.Zone
     if "small" not in _cache:
 
+        class SmallTVersion(dns.btreezone.WritableVersion):
+            # the delegation index of a version that starts from nothing gets t=3 as well (a
+            # version that copies another inherits its t), so that >5 cuts make it multi-level
+            def __init__(self, zone, replacement=False):
+                super().__init__(zone, replacement)
+                if replacement:
+                    self.delegations = dns.btreezone.Delegations(t=3)
+
         class SmallTZone(dns.btreezone.Zone):
             map_factory = staticmethod(lambda: dns.btree.BTreeDict(t=3))
+            writable_version_factory = SmallTVersion
 
         _cache["small"] = SmallTZone
     return _cache["small"]
@@ -556,6 +567,9 @@ def _check_version(ctx, v, m, queries, where):
         ctx.classes.add("nested-cut")
     if want_cuts:
         ctx.classes.add("has-cut")
+        root = getattr(v.delegations, "root", None)
+        if root is not None and not root.is_leaf:
+            ctx.classes.add("multi-level-delegation-index")
 
     apex = ctx.apex
     for q in queries:
@@ -898,6 +912,21 @@ def _queries(draw, focus, lo, hi):
 
 
 _SOA = [0, "SOA", 0, 0]
+# pairwise non-nested pool names: NS at 7-13 of them gives a delegation index of that many cuts,
+# which under small_t (Delegations(t=3), at most 5 keys a node) is a multi-level tree
+WIDE = [3, 6, 9, 5, 8, 12, 21, 11, 22, 23, 25, 19, 18]
+
+
+@st.composite
+def _wide(draw, case):
+    """every 5th case: many sibling cuts + a query beneath each of them"""
+    if draw(st.integers(0, 4)) != 0:
+        return [], []
+    case["small_t"] = True
+    chosen = draw(st.lists(st.sampled_from(WIDE), min_size=7, max_size=len(WIDE), unique=True))
+    recs = [[i, "NS", draw(st.integers(0, 1)), 0] for i in chosen]
+    qs = [["child", i, draw(st.integers(0, len(QLABELS) - 1)), draw(st.integers(0, 1))] for i in chosen]
+    return recs, qs
 
 
 @st.composite
@@ -916,6 +945,8 @@ def load_cases(draw, maxrec):
     focus = draw(_focus())
     recs = draw(st.lists(_record(focus), min_size=3, max_size=maxrec))
     recs += [_SOA, [0, "NS", 0, draw(st.integers(0, 1))]]
+    wrecs, wqs = draw(_wide(case))
+    recs += wrecs
     n = len(recs)
     nperm = draw(st.integers(2, 4))
     perms = []
@@ -925,7 +956,7 @@ def load_cases(draw, maxrec):
         )
     case["records"] = recs
     case["perms"] = perms
-    case["queries"] = draw(_queries(focus, 7, 20))
+    case["queries"] = draw(_queries(focus, 7, 20)) + wqs
     return case
 
 
@@ -935,11 +966,12 @@ def history_cases(draw, maxrec, maxtxn, maxops):
     focus = draw(_focus())
     recs = draw(st.lists(_record(focus), min_size=1, max_size=maxrec))
     recs += [_SOA, [0, "NS", 0, draw(st.integers(0, 1))]]
-    recs = list(draw(st.permutations(recs)))
+    wrecs, wqs = draw(_wide(case))
+    recs = list(draw(st.permutations(recs + wrecs)))
     case["records"] = recs
     case["via"] = draw(st.sampled_from(["text", "txn"]))
     case["txns"] = draw(st.lists(_txn(focus, maxops), min_size=1, max_size=maxtxn))
-    case["queries"] = draw(_queries(focus, 7, 29))
+    case["queries"] = draw(_queries(focus, 7, 29)) + wqs
     return case
 
 
@@ -963,6 +995,7 @@ def parts(tier):
                 "flag:GLUE": 50,
                 "flag:NONE": 100,
                 "nested-cut": 20,
+                "multi-level-delegation-index": 100,
                 "bounds:right=None": 100,
                 "bounds:is_equal": 100,
                 "bounds:not_equal": 100,
@@ -987,6 +1020,7 @@ def parts(tier):
                 "flag:GLUE": 100,
                 "flag:NONE": 200,
                 "nested-cut": 30,
+                "multi-level-delegation-index": 100,
                 "cut-removed-glue-left": 50,
                 "non-ns-change-at-cut": 20,
                 "cut-created-above-existing-names": 50,
